@@ -195,12 +195,16 @@ func (ev *evalCtx) eval(e *Expr) Term {
 			ev.fail("quantifier body is not Bool")
 		}
 		bs := body.S
-		if len(e.Trig) > 0 {
-			var ts []string
-			for _, t := range e.Trig {
-				ts = append(ts, n.eval(t).S)
+		if len(e.Trigs) > 0 {
+			var pats []string
+			for _, g := range e.Trigs {
+				var ts []string
+				for _, t := range g {
+					ts = append(ts, n.eval(t).S)
+				}
+				pats = append(pats, ":pattern ("+strings.Join(ts, " ")+")")
 			}
-			bs = fmt.Sprintf("(! %s :pattern (%s))", bs, strings.Join(ts, " "))
+			bs = fmt.Sprintf("(! %s %s)", bs, strings.Join(pats, " "))
 		}
 		return Term{fmt.Sprintf("(%s (%s) %s)", e.Op, strings.Join(binders, " "), bs), "Bool", nil}
 	case "call":
@@ -310,13 +314,15 @@ func (ev *evalCtx) ident(name string) Term {
 	if t, ok := ev.bound[name]; ok {
 		return t
 	}
-	if t, ok := ev.env[name]; ok {
-		return t
-	}
+	// the current value of a source variable (a reassigned parameter has phis) takes precedence over the
+	// entry value bound in env
 	if ev.names != nil {
 		if t, ok := ev.names(ev, name); ok {
 			return t
 		}
+	}
+	if t, ok := ev.env[name]; ok {
+		return t
 	}
 	if cd, ok := ev.tr.eng.Specs.Consts[name]; ok {
 		s, _, err := c.specSort(cd.Sort)
@@ -541,6 +547,7 @@ func (ev *evalCtx) call(e *Expr) Term {
 		}
 		vs := c.sortOf(obj.Type())
 		g := c.declConst("glob:"+gpkg.Path()+"."+name, "Ref")
+		ev.tr.globalFact(g)
 		return Term{app("select", ev.tr.get(ev.cur, "C:"+vs, "(Array Ref "+vs+")"), g), vs, obj.Type()}
 	case "bitsof":
 		// bitsof("I"): bit width of an integer type parameter
